@@ -41,6 +41,8 @@ type NodeRT struct {
 	Kind      string // sub subf subff clone clonef cloneff monitor
 	Parent    *NodeRT
 	Filter    FilterSpec
+	PrevFilter      *FilterSpec   // the filter in force before the last accepted Refilter (the library may still be applying the last one)
+	PendingFilter   *FilterSpec   // filter of the Refilter call in flight (set before the call)
 	refLock         chan struct{} // serialises Refilter calls on this node: 'most recently set filter' is only defined for ordered calls
 	RefilterPending bool // a Refilter call has been issued (set before the call)
 	HasFilter bool // a filter is in force (immediate variants: always; deferred: after first accepted Refilter)
@@ -101,6 +103,7 @@ type H struct {
 	EvSeq       int // global receive counter
 	MaxSeenVer  int // highest version any reader has received (C04 resume lower bound)
 	GetCheck    bool
+	StaticAtReady bool // the scenario keeps the server unchanged until every node is ready: content at Ready() is exactly determined
 	RootDown    func() bool // the scenario has shut the controller down (or is doing so right now)
 	NoRelist    bool
 }
@@ -125,6 +128,7 @@ func NewH(srv *Server, rootFilter FilterSpec, period time.Duration, logYield boo
 		}
 	}
 	h.Log = lg
+	srv.OnWatch = func(c *WatchCall) { c.Floor = h.MaxSeenVer }
 	h.Ctx, h.Cancel = context.WithCancel(context.Background())
 	return h
 }
@@ -329,9 +333,14 @@ func (h *H) reader(n *NodeRT) {
 	sub := n.Sub
 	select {
 	case <-sub.Ready():
+		cands := n.filterCands(nil)
 		if list, err := sub.Cache().List(); err == nil {
 			n.Mirror = NewMirror(n.Name(), specsOf(list))
 			n.SeedStep = detsim.Steps()
+			cands = n.filterCands(cands)
+			if h.StaticAtReady {
+				h.checkSyncedAtReady(n, specsOf(list), cands)
+			}
 		}
 	case <-sub.Done():
 	}
@@ -404,6 +413,48 @@ func (h *H) lateDeleted(spec Spec) bool {
 		}
 	}
 	return false
+}
+
+// checkSyncedAtReady: C08 (iii) - a cache read made once Ready() is observed
+// already returns the synced content (the parent is static in these runs).
+// filterCands collects the filters that are in force or in flight right now.
+func (n *NodeRT) filterCands(acc []FilterSpec) []FilterSpec {
+	acc = append(acc, n.Filter)
+	if n.PendingFilter != nil {
+		acc = append(acc, *n.PendingFilter)
+	}
+	if n.PrevFilter != nil {
+		acc = append(acc, *n.PrevFilter)
+	}
+	return acc
+}
+
+func (h *H) checkSyncedAtReady(n *NodeRT, got []Spec, cands []FilterSpec) {
+	for p := n.Parent; p != nil; p = p.Parent {
+		if p.Filtered() {
+			return // the parent's own content moves with its Refilter calls: not static
+		}
+	}
+	_, parent, ok := ListIDs(h.CacheOf(n.Parent))
+	if !ok {
+		return
+	}
+	if n.Parent == nil && !SameIDs(SpecIDs(parent), SpecIDs(h.ExpectRoot())) {
+		return // the server moved although the run was declared static (possible only after shrinking): nothing to compare
+	}
+	gotIDs := SpecIDs(got)
+	if !n.Filtered() {
+		if want := SpecIDs(parent); !SameIDs(gotIDs, want) {
+			detsim.Fail("not-synced-at-ready", "%s observed Ready() but its cache read returned %v; the (static) parent content is %v", n.Name(), gotIDs, want)
+		}
+		return
+	}
+	for _, f := range cands {
+		if SameIDs(gotIDs, SpecIDs(FilterSpecs(parent, f.Pred()))) {
+			return
+		}
+	}
+	detsim.Fail("not-synced-at-ready", "%s observed Ready() but its cache read returned %v; the (static) parent content is %v and its filter is %s", n.Name(), gotIDs, SpecIDs(parent), n.Filter.String())
 }
 
 // Drain reads whatever is buffered in a (stalled) subscription until it would block.
@@ -485,12 +536,16 @@ func (h *H) Refilter(n *NodeRT, f FilterSpec) error {
 	n.refLock <- struct{}{}
 	defer func() { <-n.refLock }()
 	n.RefilterPending = true
+	ff := f
+	n.PendingFilter = &ff
 	if n.FPub != nil {
 		err = n.FPub.Refilter(f.Build())
 	} else {
 		err = n.FSub.Refilter(f.Build())
 	}
 	if err == nil {
+		pf := n.Filter
+		n.PrevFilter = &pf
 		n.Filter = f
 		n.HasFilter = true
 	}
